@@ -103,6 +103,24 @@ pub fn run(input: &[u8], rec: &mut Rec) {
                 let (trace, _) = m.add_import_func("wv", "trace", trace_ty);
                 let results = m.types.get(m.funcs.get(fid).ty()).results().to_vec();
                 let scratch = m.locals.add(ValType::I32);
+                // a third of the import replacements: the import entry is taken out of the import table and put
+                // back first (same module, field and function - it is then the last entry), as a tool that
+                // rewrites import names does
+                if kind == "imp" && (wv_gen::rng::fnv64(input) as usize + fi) % 3 == 0 {
+                    let (iid, module, field) = {
+                        let i = m.imports.get_imported_func(fid).ok_or("import entry not found")?;
+                        (i.id(), i.module.clone(), i.name.clone())
+                    };
+                    m.imports.delete(iid);
+                    let new_id = m.imports.add(&module, &field, fid);
+                    // the function's own record of its import entry is public bookkeeping nothing in the emit path
+                    // reads: kept current in half of these cases only
+                    if (wv_gen::rng::fnv64(input) >> 7) % 2 == 0 {
+                        if let FunctionKind::Import(imp) = &mut m.funcs.get_mut(fid).kind {
+                            imp.import = new_id;
+                        }
+                    }
+                }
                 let r = if kind == "imp" {
                     m.replace_imported_func(fid, |(b, args)| build_body(b, trace, &results, scratch, args))
                 } else {
